@@ -313,6 +313,24 @@ func runC08(c *core.Ctx) {
 					}
 				}
 			})
+			// the same guard written out as `if param <= 0 { panic(...) }`: the comparison is known false where the
+			// field is initialised
+			for _, cm := range falseAt(p, in) {
+				switch cm.Op {
+				case token.LSS, token.LEQ:
+					if involves(cm.X) && !involves(cm.Y) {
+						guarded = true
+					}
+				case token.GTR, token.GEQ:
+					if involves(cm.Y) && !involves(cm.X) {
+						guarded = true
+					}
+				case token.NEQ:
+					if involves(cm.X) || involves(cm.Y) {
+						guarded = true
+					}
+				}
+			}
 			c.Check(guarded, "R2", "ctor-validates/"+core.FName(fn)+"/"+fn.Params[pi].Name(), p.Pos(fn.Pos()), "lower bound (or membership) asserted in the constructor", "configuration parameter "+fn.Params[pi].Name()+" is used as a size / slice bound by the decoder but the constructor does not reject too small (negative / zero) values: the decoder fails with a runtime fault")
 		})
 	}
@@ -483,12 +501,17 @@ func runC08(c *core.Ctx) {
 				}
 				return core.IsPkgFunc(x, "io", "ReadFull") || core.IsPkgFunc(x, "encoding/binary", "ReadUvarint") || isPkgRelFunc(p, x, "utils", "ExactReader")
 			}}
-			hasRead := false
-			core.AllInstrs(fn, func(x ssa.Instruction) {
-				if reads.InstrMay(x, nil) && core.Dominates(x, call) {
-					hasRead = true
+			// every (feasible) path to the delivery passes a read
+			tNoRead, _ := core.Search(nil, fn.Blocks[0], func(x ssa.Instruction) core.Action {
+				if x == ssa.Instruction(call) {
+					return core.Target
 				}
-			})
+				if reads.InstrMay(x, nil) {
+					return core.Barrier
+				}
+				return core.Continue
+			}, nil)
+			hasRead := tNoRead == nil
 			c.Check(bare == "", "R4", name+"/no-bare-limit-reader", p.InstrPos(call), "no bare io.LimitReader over the source is handed downstream", "a bare "+bare+" is delivered: it reports plain EOF when the source ends early, so a frame cut short by a disconnect is indistinguishable from a complete one")
 			if fc.name != "packet-codec" {
 				c.Check(hasRead || exactOrRead, "R4", name+"/checked-read-or-exact-reader", p.InstrPos(call), "delivery is preceded by a checked read or wraps the source in an exact-length reader", "the decoder delivers a message without having read anything and without an exact-length reader (phantom frames at end-of-stream)")
